@@ -64,6 +64,14 @@ def rule_r1(chk, facts, u):
                     state_writes.append((b, i, ln, nocast(n[3])))
                 elif t == ('g', 'FirstIfSave'):
                     pops.append((b, i, ln))
+            elif n[0] == 'call' and callee_name(n):
+                # a helper of the module that unlinks the head on every path counts as the pop
+                g = u.funcs.get(callee_name(n))
+                if g is not None and g.file == 'asmif.c' and g.name not in PROTOCOL and g.entry is not None and \
+                        g.must_pass(g.entry, -1, lambda ex: any(is_assign(m) and m[1] == '=' and strip(m[2]) == ('g', 'FirstIfSave') and
+                                                                  nocast(m[3])[0] == 'm' and nocast(m[3])[2].endswith('.Next')
+                                                                  for m in walk_own(ex)))[0]:
+                    pops.append((b, i, ln))
         for sn in STATES:
             k = vals[sn]
             sp = specialise(STATE_EXPR, k)
